@@ -566,15 +566,15 @@ impl TableSubj {
     }
 
     fn poison_check(&mut self, cx: &mut Cx) {
-        // after a refusal the table must still serialise to what it did before; if it does not the
-        // object is in a state no property speaks about: end the run without a verdict
+        // A refused operation is a no-op in the model, and the history goes on: whatever the crate
+        // left behind is what the next observations see, so an operation that unwinds after it has
+        // already touched the length, the running sum or a cell shows up as an ordinary violation
+        // of the property whose invariant it broke. (On the pinned tree every injected refusal
+        // leaves the object bit-identical; this only records which case occurred.)
         if let Some(prev) = &self.last_img {
             match catch(|| to_vec(self.aml())) {
                 Ok(now) if &now == prev => cx.probe("fault.refusal.left_unchanged"),
-                _ => {
-                    cx.probe("fault.refusal.poisoned_object");
-                    cx.stop = true;
-                }
+                _ => cx.probe("fault.refusal.object_changed_by_refused_operation"),
             }
         }
     }
@@ -696,6 +696,8 @@ impl Subject for TableSubj {
         let idx = self.ents.len();
         let second_imsic = op.k == K::MaImsic && self.has_imsic;
         let kind = op.k;
+        let be_subn = be.subn;
+        let be_aux = be.aux;
         let r = catch(|| self.add(be.b, idx));
         match r {
             Ok((hclass, hraw)) => {
@@ -711,8 +713,21 @@ impl Subject for TableSubj {
                 Applied::ok()
             }
             Err(_) => {
+                let oversize = (kind == K::PpProc && be_subn > 58) || (kind == K::CeCxims && be_subn > 255);
+                // a platform name that is not a NUL-free ASCII string is outside the format: the crate
+                // accepts it today, but refusing it would be legitimate
+                let out_of_format = kind == K::RiPlatform && be_aux >> 32 != 0;
                 if second_imsic {
                     cx.probe("fault.refusal.second_imsic");
+                    self.poison_check(cx);
+                    Applied { refused: true, refusal_expected: true }
+                } else if out_of_format {
+                    cx.probe("fault.refusal.out_of_format_name_refused");
+                    self.poison_check(cx);
+                    Applied { refused: true, refusal_expected: true }
+                } else if oversize {
+                    // a count that does not fit its field may be refused (that is what C18 asks for)
+                    cx.probe("fault.refusal.oversize_entry_refused");
                     self.poison_check(cx);
                     Applied { refused: true, refusal_expected: true }
                 } else {
@@ -911,8 +926,10 @@ impl Subject for SlitSubj {
                 cx.probe("fault.refusal.out_of_range_index");
                 if let Some(prev) = &self.last_img {
                     if catch(|| to_vec(&self.t)).ok().as_ref() != Some(prev) {
-                        cx.probe("fault.refusal.poisoned_object");
-                        cx.stop = true;
+                        // a refused assignment is a no-op in the model; see TableSubj::poison_check
+                        cx.probe("fault.refusal.object_changed_by_refused_operation");
+                    } else {
+                        cx.probe("fault.refusal.left_unchanged");
                     }
                 }
                 Applied { refused: true, refusal_expected: true }
@@ -1037,7 +1054,7 @@ impl Subject for SysLocSubj {
                         cx.probe("fault.refusal.out_of_range_index");
                         if let Some(prev) = &self.last {
                             if catch(|| to_vec(&self.s)).ok().as_ref() != Some(prev) {
-                                cx.stop = true;
+                                cx.probe("fault.refusal.object_changed_by_refused_operation");
                             }
                         }
                         return Applied { refused: true, refusal_expected: true };
@@ -1125,8 +1142,7 @@ impl Subject for Tpm2Subj {
                 cx.probe("fault.refusal.second_log_area");
                 if let Some(prev) = &self.last {
                     if catch(|| to_vec(&self.t)).ok().as_ref() != Some(prev) {
-                        cx.probe("fault.refusal.poisoned_object");
-                        cx.stop = true;
+                        cx.probe("fault.refusal.object_changed_by_refused_operation");
                     }
                 }
                 Applied { refused: true, refusal_expected: true }
@@ -1371,6 +1387,9 @@ struct SdtSubj {
     s: sdt::Sdt,
     m: Vec<u8>,
     prev_kind: u64,
+    /// C02 applies to the generic table as long as the caller has not overwritten bytes 4..8 since
+    /// the last append (creation and every append put the true length there)
+    length_is_tables: bool,
 }
 
 fn model_fix_checksum(m: &mut [u8]) {
@@ -1410,7 +1429,12 @@ impl Subject for SdtSubj {
         self.s.to_aml_bytes(sink)
     }
     fn length_field(&self) -> Option<usize> {
-        None // the Length field of a generic table is caller-writable; C13's model covers it
+        // caller-writable: only asserted while no caller write has touched it since the last append
+        if self.length_is_tables {
+            Some(4)
+        } else {
+            None
+        }
     }
     fn apply(&mut self, op: &Op, cx: &mut Cx) -> Applied {
         let len = self.m.len();
@@ -1442,6 +1466,7 @@ impl Subject for SdtSubj {
                     res = Applied { refused: true, refusal_expected: true };
                 } else {
                     self.append(&bytes);
+                    self.length_is_tables = true;
                 }
                 cx.cover("c13.op_offclass", kind_id << 8 | 7);
             }
@@ -1473,6 +1498,9 @@ impl Subject for SdtSubj {
                     (Ok(()), true) => {
                         self.m[off..off + w].copy_from_slice(&bytes);
                         model_fix_checksum(&mut self.m);
+                        if w > 0 && off < 8 && off + w > 4 {
+                            self.length_is_tables = false;
+                        }
                     }
                     (Err(_), true) => {
                         cx.fail(P13, "in_range_write_accepted", format!("Sdt of {} bytes refused {}", len, op.brief()));
@@ -1512,6 +1540,7 @@ impl Subject for SdtSubj {
                 }
                 for b in &op.b[..delivered] {
                     self.append(&[*b]);
+                    self.length_is_tables = true;
                 }
                 cx.cover("c13.op_offclass", kind_id << 8 | 7);
             }
@@ -1726,19 +1755,19 @@ fn make_subject(root: &Op, cx: &mut Cx) -> Option<Box<dyn Subject>> {
                         cx.stop = true; // below the quantifier's domain and accepted: no verdict
                         return None;
                     }
-                    let mut m = Vec::with_capacity(len as usize);
-                    m.extend_from_slice(&sig);
-                    m.extend_from_slice(&len.to_le_bytes());
-                    m.push(rev);
-                    m.push(0);
-                    m.extend_from_slice(&a);
-                    m.extend_from_slice(&b);
-                    m.extend_from_slice(&c.to_le_bytes());
-                    m.extend_from_slice(b"RVAT");
-                    m.extend_from_slice(&[0, 0, 0, 1]);
-                    m.resize(len as usize, 0);
-                    model_fix_checksum(&mut m);
-                    Box::new(SdtSubj { s, m, prev_kind: 0 })
+                    // The reference vector starts from the table's own initial contents: what the
+                    // header fields hold is C04's matter. C13 needs the declared length, the Length
+                    // field and a zero sum at creation; everything after that is the model's.
+                    let m = s.as_slice().to_vec();
+                    if m.len() != len as usize {
+                        cx.fail(P13, "creation_length", format!("Sdt::new with declared length {} holds {} bytes", len, m.len()));
+                        return None;
+                    }
+                    if le32(&m, 4) != Some(len) {
+                        cx.fail(P13, "creation_length", format!("Sdt::new with declared length {} has Length field {:?}", len, le32(&m, 4)));
+                    }
+                    let _ = (sig, rev);
+                    Box::new(SdtSubj { s, m, prev_kind: 0, length_is_tables: true })
                 }
                 Err(_) => {
                     if len >= 36 {
